@@ -624,9 +624,17 @@ def main(ck: Check):
                 aliased_total += r["aliased"]
                 aliased_probes += 1
 
-    def report(kind, f, batch_order, hashseed, extra=None):
-        key = (kind, f["type"], f.get("unit"), f.get("cell"))
-        if key in [r[0] for r in reported] or len(reported) >= 6:
+    PRIORITY = ["order-dependence", "interleaving-dependence", "thread-dependence", "hash-seed",
+                "shared-data-changed", "alone-in-fresh-interpreter"]
+
+    def report(kind, f, batch_order, hashseed, extra=None, run_failures=()):
+        """queue one failing input (digest differences first when the verdict is printed)"""
+        cells = []
+        for g in run_failures:
+            if g["type"] == "frame" and g["cell"] not in cells:
+                cells.append(g["cell"])
+        key = (kind.split(" (")[0], f["type"], f.get("unit") or f.get("cell"))
+        if key in [r[0] for r in reported]:
             return
         item = {"kind": kind, "hashseed": hashseed, "batch": sorted({step_text(s) for s in batch_order}),
                 "order": [step_text(s) for s in batch_order]}
@@ -635,18 +643,26 @@ def main(ck: Check):
                          "first_difference": cx.describe(f), "plan": units[f["unit"]]["lines"]})
         else:
             item.update({"shared_cell": f["cell"], "what": f["what"], "changed_after": f["after"]})
+        if cells:
+            item["shared_cells_changed_in_the_run"] = cells[:8]
+            item["shared_cells_changed_count"] = len(cells)
         if extra:
             item.update(extra)
         reported.append((key, item))
-        ck.add_failing(item)
+
+    def pick(fs):
+        """the failure of a run to report: a digest difference if there is one, else a changed shared cell"""
+        return next((g for g in fs if g["type"] == "digest"), fs[0])
 
     # (d) hash seeds + frame of the alone runs
-    for (uid, hs), out in alone.items():
+    for (uid, hs), out in sorted(alone.items()):
         account(out, f"alone hashseed={hs}")
         if hs != ref_seed:
             distinct.add((uid, f"hashseed={hs}"))
-        for f in cx.failures_of(out):
-            report("alone-in-fresh-interpreter" if f["type"] == "frame" else "hash-seed", f, [uid], hs)
+        fs = cx.failures_of(out)
+        if fs:
+            f = pick(fs)
+            report("alone-in-fresh-interpreter" if f["type"] == "frame" else "hash-seed", f, [uid], hs, run_failures=fs)
 
     # ---- stage 2: orders, interleavings, thread rounds (each in its own fresh interpreter)
     def noise_step():
@@ -709,7 +725,8 @@ def main(ck: Check):
         if "crash" in out:
             raise RuntimeError(f"runner crashed in {out['tag']}: {out['crash']}")
         outs[out["tag"]] = out
-    shrink_budget = 60.0 if quick else 240.0
+    shrink_budget = 40.0 if quick else 180.0
+    shrinks = 0
     for tag, out in sorted(outs.items()):
         kind, k = tag.split("|")
         k = int(k)
@@ -723,11 +740,15 @@ def main(ck: Check):
         if not fs:
             continue
         hs = next(a[2] for a in stage2 if a[0] == tag)
-        f = fs[0]
+        f = pick(fs)
         if kind == "order":
-            small, g = shrink_seq(cx, orders[k][1], f, hs, shrink_budget)
+            if shrinks < 3:
+                shrinks += 1
+                small, g = shrink_seq(cx, orders[k][1], f, hs, shrink_budget)
+            else:
+                small, g = orders[k][1][:(f.get("pos") or 0) + 1], f
             report("order-dependence" if f["type"] == "digest" else "shared-data-changed", g, small, hs,
-                   {"found_in": orders[k][0], "original_order_length": len(orders[k][1])})
+                   {"found_in": orders[k][0], "original_order_length": len(orders[k][1])}, run_failures=fs)
         else:
             # try to show the same difference sequentially (a simpler context); otherwise report the round as is
             o = il_jobs[k][0] if kind == "interleave" else th_jobs[k]["order"]
@@ -735,19 +756,26 @@ def main(ck: Check):
             seq_order = [u for u in o if u != victim] + ([victim] if victim else [])
             ff = dict(f, pos=len(seq_order) - 1)
             small, g = None, None
-            if victim is not None:
+            if victim is not None and shrinks < 3:
+                shrinks += 1
                 out2 = sub("seqrepro", cx.job("seq", seq_order, order=seq_order), hs, 600)
                 g0 = next((x for x in cx.failures_of(out2) if same_failure(f, x)), None)
                 if g0 is not None:
                     small, g = shrink_seq(cx, seq_order, g0, hs, shrink_budget)
             if small is not None:
                 report("order-dependence (first seen " + ("interleaved" if kind == "interleave" else "on threads") + ")",
-                       g, small, hs)
+                       g, small, hs, run_failures=fs)
             else:
                 report("interleaving-dependence" if kind == "interleave" else "thread-dependence", f, o, hs,
                        {"threads": None if kind == "interleave" else th_jobs[k]["threads"],
                         "round": None if kind == "interleave" else th_jobs[k]["kind"],
-                        "not_reproduced_sequentially": True})
+                        "not_reproduced_sequentially": True}, run_failures=fs)
+    reported.sort(key=lambda r: (next((i for i, p in enumerate(PRIORITY) if r[0][0].startswith(p)), 9),
+                                 len(r[1]["order"])))
+    for _key, item in reported[:8]:
+        ck.add_failing(item)
+    if len(reported) > 8:
+        ck.notes.append(f"{len(reported) - 8} further failing inputs not listed")
 
     # ---- the proved half, and its tie to the code
     proto_dir = tempfile.mkdtemp(prefix="c02_res_")
@@ -847,7 +875,7 @@ def main(ck: Check):
         "PROVED (Lean): the abstract sharing protocol only -- for every finite set of sessions and every interleaving of "
         "their atomic steps (check global / construct / write global / re-read / interpret / local engine step), incl. "
         "several sessions finding the global empty, each session's outputs equal those of running alone from an empty "
-        "global, under hFrame; the heap-level interpret model (shallow copy, DFS rebuild, deepcopy-then-set) writes fresh "
+        "global, under hFrame; the heap-level interpret model (deep copy of the stored dict -- also the earlier shallow copy --, DFS rebuild, deepcopy-then-set) writes fresh "
         "cells only and returns the pure interpretation; the router memo with re-entrant dispatchers is transparent.  "
         "The router model and the protocol model are tied to RouterDispatcher and get_kms_jobs_repository by driver "
         "correspondences (the latter under forced line-level thread schedules).  OBSERVED (not proved): that the real "
